@@ -2,14 +2,25 @@
 use crate::common::{Ctx, Report};
 use serde_json::Value;
 
+pub mod stateful;
+use stateful::Target;
+
 pub fn run(ctx: &Ctx) -> Option<Report> {
     match ctx.prop.as_str() {
+        "C01" => Some(stateful::run_target(ctx, Target::C01)),
+        "C02" => Some(stateful::run_target(ctx, Target::C02)),
+        "C16" => Some(stateful::run_target(ctx, Target::C16)),
+        "C17" => Some(stateful::run_target(ctx, Target::C17)),
         _ => None,
     }
 }
 
-pub fn replay(ctx: &Ctx, _case: &Value) -> Option<Report> {
+pub fn replay(ctx: &Ctx, case: &Value) -> Option<Report> {
     match ctx.prop.as_str() {
+        "C01" => Some(stateful::replay_target(ctx, Target::C01, case)),
+        "C02" => Some(stateful::replay_target(ctx, Target::C02, case)),
+        "C16" => Some(stateful::replay_target(ctx, Target::C16, case)),
+        "C17" => Some(stateful::replay_target(ctx, Target::C17, case)),
         _ => None,
     }
 }
